@@ -68,6 +68,18 @@ def densified_in_station_order(ck, rid, f, fl, value, node, mapping, station_src
         ck.violation(rid, f, value, f"the matrix rows are `{src(v0, 50)}`, i.e. in the order of the mapping's entries, not in the network's station order: "
                      f"rows are recorded for / applied to the wrong stations whenever the two orders differ", sink="densify-order")
         return False
+    # recognised and wrong: the matrix starts from pilots that are already stored (a window of pilot_signals, a previous matrix kept on
+    # the object) and only the rows the mapping names are replaced - "stations it omits get 0" fails for every omitted station
+    if isinstance(v0, ast.Name):
+        for d in sorted(fl.defs_at(node, v0.id), key=lambda d_: d_.id):
+            how = fl.def_how(d, v0.id)
+            if how[0] == "assign" and how[1] is not None:
+                base = fl.expand(how[1], d)
+                stale = sorted(x for x in leaves(base, calls=False) if x.startswith("self.") and x.split(".")[1] in ("pilot_signals", "charging_rates"))
+                if stale:
+                    ck.violation(rid, f, how[1], f"the matrix that is written starts out as `{src(how[1], 70)}`, i.e. from {stale[0]}: a station the new "
+                                 "schedule omits keeps the pilot an earlier schedule planned for it instead of 0", sink="densify-row")
+                    return False
     elems = collect_list(fl, value, node)
     if elems is None:
         raise AnalysisError(f"{f.qual}: construction of the schedule matrix not recognised: {src(value)}")
